@@ -208,6 +208,11 @@ def c06_kernels(isa):
                 for bump in ([], ["addq $8, %rax"], ["incq %rbx"], ["movq %rax, %rdx"]):
                     base = "rdx" if bump == ["movq %rax, %rdx"] else "rax"
                     out.append([rmw] + bump + [f"movq {d}(%{base}{idx}), %rdi"])
+        # a read-modify-write instruction as the LATER store to the same operand: it ends the search like a plain store
+        for rmw in ("addq $1, 8(%rax)", "incq 8(%rax)", "subq %rsi, 8(%rax)"):
+            out.append(["movq %rsi, 8(%rax)", rmw, "movq 8(%rax), %rdi"])
+            out.append(["movq %rsi, 8(%rax)", "addq %rcx, %rdx", rmw, "movq 8(%rax), %rdi", "movq 16(%rax), %r9"])
+        out.append(["movq %rsi, 8(%rax,%rbx,8)", "incq 8(%rax,%rbx,8)", "movq 8(%rax,%rbx,8), %rdi"])
         out += [["movq %rsi, (%rbx)", "sbbq %rcx, %rbx", "movq (%rbx), %rdi"], ["movq %rsi, (%rbx)", "subq %rcx, %rbx", "movq (%rbx), %rdi"], ["movq %rsi, (%rbx)", "addq %rcx, %rbx", "movq (%rbx), %rdi"]]
         for d in (-8, 0, 8, 16):
             out.append(["movq %rsi, 8(%rax)", f"movq {d}(%rax), %rax"])
